@@ -160,6 +160,11 @@ def _env() -> dict:
                 raise SPSDKTimeoutError() from None
 
     from spsdk.mboot.mcuboot import McuBoot
+    from spsdk.utils.misc import Timeout
+
+    # The harness owns the clock of the host's time-outs: virtual time advances only while a flooding device answers "not ready"
+    # (1 ms per byte read). Wall-clock time plays no part: a worker that the scheduler keeps waiting cannot time out for that.
+    Timeout._get_current_time_us = staticmethod(lambda: M.VCLOCK_US[0])
 
     _ENV.update(
         SerialStub=SerialStub, UsbStub=UsbStub, McuBoot=McuBoot, SDP=SDP, SDPS=SDPS, SPSDKError=SPSDKError,
@@ -303,6 +308,62 @@ _reg("get_property_list", "read", 0,
      lambda mb, op: _proplist(mb.get_property_list()),
      cmds=lambda op: [(M.C_GET_PROPERTY, 0, (t, 0)) for t in _PROP_TAGS],
      truth=_proplist_truth)
+# composite memory listing: flash regions (start / size / sector size per index until the device refuses or repeats the first
+# region), RAM regions, then the external memories of bootloaders that have the attribute property. What the device holds decides
+# the exchanges; an exchange the device does not answer at all makes the listing incomplete, which must not be reported as success.
+_EXT_MEM_IDS = list(set([1, 4, 4, 8, 9, 10, 11, 16, 256, 257, 272, 273, 288, 289]))  # the order the code under test derives the same way
+
+
+def _memlist(d):
+    if d is None:
+        return None
+    out = {}
+    for k, regs in d.items():
+        if k == "internal_flash":
+            out[k] = [[r.index, r.start, r.size, r.sector_size] for r in regs]
+        elif k == "internal_ram":
+            out[k] = [[r.index, r.start, r.size] for r in regs]
+        else:
+            out[k] = [[r.mem_id, r.value] for r in regs]
+    return out
+
+
+def _memlist_plan(core):
+    """(exchanges, listing) for what the device holds."""
+    P = core.props
+    ex, out = [], {}
+
+    def walk(tags, name):
+        got = []
+        for t in tags:
+            ex.append((M.C_GET_PROPERTY, 0, (t, 0)))
+            if t not in P:
+                return
+            got.append(P[t][0])
+        out[name] = [[0] + got]
+        ex.append((M.C_GET_PROPERTY, 0, (tags[0], 1)))  # the model answers every index alike: the first region again ends the walk
+
+    walk([0x03, 0x04, 0x05], "internal_flash")
+    walk([0x0E, 0x0F], "internal_ram")
+    ex.append((M.C_GET_PROPERTY, 0, (M.P_CURRENT_VERSION, 0)))
+    if M.P_CURRENT_VERSION in P:
+        v = P[M.P_CURRENT_VERSION][0]
+        ids = [1] if ((v >> 16) & 0xFF, (v >> 8) & 0xFF, v & 0xFF) <= (2, 0, 0) else _EXT_MEM_IDS
+        ext = []
+        for mid in ids:
+            ex.append((M.C_GET_PROPERTY, 0, (0x19, mid)))
+            if 0x19 not in P:
+                break
+            ext.append([mid, P[0x19][0]])
+        if ext:
+            out["external_mems"] = ext
+    return ex, out
+
+
+_reg("get_memory_list", "read", 0,
+     lambda mb, op: _memlist(mb.get_memory_list()),
+     cmds=lambda op: [],
+     truth=lambda core, op: _memlist_plan(core)[1])
 _reg("set_property", "write", M.C_SET_PROPERTY,
      lambda mb, op: mb.set_property(op["tag"], op["value"]),
      cmds=lambda op: [(M.C_SET_PROPERTY, 0, (op["tag"], op["value"]))],
@@ -457,6 +518,8 @@ def _mb_expected_cmds(op: dict, sess: MbSession):
     if op["op"] == "read_memory" and sess.t == "mb_hid" and not op.get("fast"):
         mps, n, a = sess.mps, op["length"], op["addr"]
         return [(M.C_READ_MEMORY, 0, (a + i, min(mps, n - i), _clamp(op.get("mem_id", 0)))) for i in range(0, n, mps)]
+    if op["op"] == "get_memory_list":
+        return _memlist_plan(sess.core)[0]
     return d.cmds(op)
 
 
@@ -534,7 +597,7 @@ def mb_check_faultfree(o: Oracle, sess: MbSession, k: int, op: dict, res: Res, p
         o.check("write_data", ok, name, "%s: %s" % (where, detail))
     # command packets seen by the device
     exp = _mb_expected_cmds(op, sess)
-    own_probe = name == "get_property_list" or (name == "get_property" and op["tag"] == M.P_MAX_PACKET_SIZE)
+    own_probe = name in ("get_property_list", "get_memory_list") or (name == "get_property" and op["tag"] == M.P_MAX_PACKET_SIZE)
     got = [e[1:] for e in core.log[pre["log"]:] if e[0] == "cmd" and (own_probe or e != MPS_PROBE)]
     if exp is not None:
         if status != 0:
@@ -612,6 +675,9 @@ def mb_check_fault(o: Oracle, sess: MbSession, k: int, op: dict, res: Res, pre: 
             if name == "get_property_list" and not same and sess.link.plan.kind == "errstatus" and isinstance(v, list):
                 # an error status is the device's way of saying "no such property": the listing then lacks exactly that entry
                 same = len(v) == len(want) - 1 and any(want[:i] + want[i + 1:] == v for i in range(len(want)))
+            if name == "get_memory_list" and not same and sess.link.plan.kind == "errstatus" and isinstance(v, dict):
+                # an error status ends the walk over one kind of memory (that is how the device says "no further region")
+                same = all(k in want and v[k] == want[k][: len(v[k])] for k in v)
             o.check("F1", same, "read:" + name, "%s: success reported with %s, the device holds %s" % (where, _short(v), _short(want)))
         elif name == "reset" and _response_lost(sess, k):
             # A reset may take effect before the response has left the device, so for this command alone the protocol's hosts
@@ -1147,6 +1213,7 @@ def _templates(tier: str) -> list:
         [{"op": "read_memory", "addr": A, "length": 64, "dev_fail": {"stage": "final", "status": 10201}}],
         [{"op": "flash_read_resource", "addr": 0, "length": 36}, {"op": "fuse_read", "addr": 4, "length": 4}],
         [{"op": "get_property_list"}],
+        [{"op": "get_memory_list"}],
     ]
     if tier != "quick":
         mb += [
@@ -1247,7 +1314,7 @@ _MEM_IDS = st.sampled_from([0, 0, 0, 1, 9, 0x100, 0x101])
 def _mb_op(draw, mps: int, tier: str, hid: bool):
     name = draw(st.sampled_from([
         "write_memory", "write_memory", "write_memory", "read_memory", "read_memory", "read_memory", "fill_memory", "flash_erase_region", "flash_erase_all",
-        "get_property", "get_property", "get_property_list", "set_property", "receive_sb_file", "receive_sb_file", "flash_program_once", "efuse_program_once", "flash_read_once",
+        "get_property", "get_property", "get_property_list", "get_memory_list", "set_property", "receive_sb_file", "receive_sb_file", "flash_program_once", "efuse_program_once", "flash_read_once",
         "efuse_read_once", "load_image", "configure_memory", "call", "execute", "reset", "kp_enroll", "kp_set_intrinsic_key", "kp_write_nonvolatile",
         "kp_read_nonvolatile", "kp_set_user_key", "kp_write_key_store", "kp_read_key_store", "generate_key_blob", "flash_read_resource",
         "flash_security_disable", "reliable_update", "update_life_cycle", "ele_message", "fuse_program", "fuse_read", "flash_erase_all_unsecure"]))
